@@ -1,5 +1,343 @@
 (* AddrProofs.v — proofs about Addr.v (C12, C13). *)
-From Coq Require Import ZArith List Bool String Lia ZifyBool.
+From Coq Require Import ZArith List Bool String Lia ZifyBool Arith.
 From DD Require Import Common Mir GenErr Addr.
 Import ListNotations.
 Open Scope Z_scope.
+
+(* ================================================================================================ *)
+(** * 0. Utilities *)
+
+(* induction principle for the nested object tree *)
+Fixpoint object_ind' (P : object -> Prop)
+  (Hblock : forall c n off rep objs, Forall P objs -> P (OBlock c n off rep objs))
+  (Hreg : forall r, P (ORegister r)) (Hcmd : forall c, P (OCommand c)) (Hbuf : forall b, P (OBuffer b))
+  (Href : forall c n ov, P (ORef c n ov)) (o : object) : P o :=
+  match o with
+  | OBlock c n off rep objs =>
+      Hblock c n off rep objs
+        ((fix go (l : list object) : Forall P l :=
+            match l with
+            | [] => Forall_nil P
+            | x :: t => Forall_cons x (object_ind' P Hblock Hreg Hcmd Hbuf Href x) (go t)
+            end) objs)
+  | ORegister r => Hreg r
+  | OCommand c => Hcmd c
+  | OBuffer b => Hbuf b
+  | ORef c n ov => Href c n ov
+  end.
+
+Lemma find_some_some {A B} (f : A -> option B) l b :
+  find_some f l = Some b -> exists a, In a l /\ f a = Some b.
+Proof.
+  induction l as [|a t IH]; cbn; [discriminate|].
+  destruct (f a) eqn:E.
+  - intros H; inversion H; subst. exists a; auto.
+  - intros H. destruct (IH H) as (x & Hx & Hf). exists x; auto.
+Qed.
+
+Lemma zrange_In n i : In i (zrange n) <-> 0 <= i < n.
+Proof.
+  unfold zrange. rewrite in_map_iff. split.
+  - intros (k & <- & Hk). apply in_seq in Hk. lia.
+  - intros H. exists (Z.to_nat i). split; [lia|]. apply in_seq. lia.
+Qed.
+
+Lemma zrange_1 : zrange 1 = [0].
+Proof. reflexivity. Qed.
+
+Lemma ocat_ok {A} (l : list (outcome (list A))) r :
+  ocat l = Ok r -> exists rs, Forall2 (fun x y => x = Ok y) l rs /\ r = List.concat rs.
+Proof.
+  revert r; induction l as [|x t IH]; cbn; intros r H.
+  - inversion H; subst. exists []; split; [constructor|reflexivity].
+  - destruct x as [a|k]; [|discriminate].
+    destruct (ocat t) as [b|k] eqn:E; [|discriminate].
+    inversion H; subst. destruct (IH b eq_refl) as (rs & HF & ->).
+    exists (a :: rs). split; [constructor; auto|reflexivity].
+Qed.
+
+Lemma ocat_map_ok {A B} (f : A -> outcome (list B)) l r :
+  ocat (map f l) = Ok r -> exists rs, Forall2 (fun x y => f x = Ok y) l rs /\ r = List.concat rs.
+Proof.
+  intros H. apply ocat_ok in H. destruct H as (rs & HF & ->). exists rs. split; [|reflexivity].
+  clear -HF. revert rs HF. induction l as [|a t IH]; intros rs HF; inversion HF; subst; constructor; auto.
+Qed.
+
+Lemma ocat_cons_ok {A} (x : outcome (list A)) t r :
+  ocat (x :: t) = Ok r -> exists a b, x = Ok a /\ ocat t = Ok b /\ r = (a ++ b)%list.
+Proof.
+  cbn. destruct x as [a|k]; [|discriminate]. destruct (ocat t) as [b|k]; [|discriminate].
+  intros H; inversion H; subst. eauto.
+Qed.
+
+Lemma Forall2_in_r {A B} (R : A -> B -> Prop) l l' (H : Forall2 R l l') y :
+  In y l' -> exists x, In x l /\ R x y.
+Proof.
+  induction H as [|a b l l' Hab HF IH]; cbn; [tauto|].
+  intros [<-|Hy]; [exists a; auto|]. destruct (IH Hy) as (x & Hx & Hr). exists x; auto.
+Qed.
+
+Lemma Forall2_in_l {A B} (R : A -> B -> Prop) l l' (H : Forall2 R l l') x :
+  In x l -> exists y, In y l' /\ R x y.
+Proof.
+  induction H as [|a b l l' Hab HF IH]; cbn; [tauto|].
+  intros [<-|Hx]; [exists b; auto|]. destruct (IH Hx) as (y & Hy & Hr). exists y; auto.
+Qed.
+
+Lemma first_error_none {A} (f : A -> option gen_error) l :
+  first_error (map f l) = None <-> Forall (fun x => f x = None) l.
+Proof.
+  induction l as [|a t IH]; cbn.
+  - split; auto.
+  - destruct (f a) eqn:E.
+    + split; [discriminate|]. intros H. inversion H; subst. congruence.
+    + rewrite IH. split; intros H; [constructor; auto|inversion H; auto].
+Qed.
+
+Lemma first_error_some_in {A} (f : A -> option gen_error) l e :
+  first_error (map f l) = Some e -> exists x, In x l /\ f x = Some e.
+Proof.
+  induction l as [|a t IH]; cbn; [discriminate|].
+  destruct (f a) eqn:E.
+  - intros H; inversion H; subst. exists a; auto.
+  - intros H. destruct (IH H) as (x & Hin & Hx). exists x; auto.
+Qed.
+
+(* ---- the pre-order object list without depths ---- *)
+
+Fixpoint flat (o : object) : list object :=
+  o :: match o with
+       | OBlock _ _ _ _ objs => flat_map flat objs
+       | _ => []
+       end.
+
+Lemma flatten_depth_flat o : forall d, map fst (flatten_depth d o) = flat o.
+Proof.
+  induction o using object_ind'; intros d; cbn; try reflexivity.
+  f_equal. induction H as [|x t Hx Ht IH]; cbn; [reflexivity|].
+  rewrite map_app, Hx, IH. reflexivity.
+Qed.
+
+Lemma preorder_objects_flat objs : preorder_objects objs = flat_map flat objs.
+Proof.
+  unfold preorder_objects, preorder. induction objs as [|o t IH]; cbn; [reflexivity|].
+  rewrite map_app, flatten_depth_flat, IH. reflexivity.
+Qed.
+
+Lemma flat_self o : In o (flat o).
+Proof. destruct o; cbn; auto. Qed.
+
+Lemma flat_trans b : forall a x, In a (flat b) -> In x (flat a) -> In x (flat b).
+Proof.
+  induction b using object_ind'; intros a x Ha Hx; cbn in Ha;
+    try (destruct Ha as [<-|[]]; assumption).
+  destruct Ha as [<-|Ha]; [assumption|].
+  cbn. right. apply in_flat_map in Ha. destruct Ha as (y & Hy & Hay).
+  apply in_flat_map. exists y. split; [assumption|].
+  rewrite Forall_forall in H. eapply H; eauto.
+Qed.
+
+Lemma flat_objs_trans objs a x : In a (flat_map flat objs) -> In x (flat a) -> In x (flat_map flat objs).
+Proof.
+  intros Ha Hx. apply in_flat_map in Ha. destruct Ha as (b & Hb & Hab).
+  apply in_flat_map. exists b. split; [assumption|]. eapply flat_trans; eauto.
+Qed.
+
+Lemma flat_children objs c n off rep ch x :
+  In (OBlock c n off rep ch) (flat_map flat objs) -> In x ch -> In x (flat_map flat objs).
+Proof.
+  intros Hb Hx. eapply flat_objs_trans; [exact Hb|]. cbn. right.
+  apply in_flat_map. exists x. split; [assumption|apply flat_self].
+Qed.
+
+Lemma in_objs_flat objs x : In x objs -> In x (flat_map flat objs).
+Proof. intros H. apply in_flat_map. exists x. split; [assumption|apply flat_self]. Qed.
+
+Lemma search_obj_in name o : forall t, search_obj name o = Some t -> In t (flat o) /\ object_name t = name.
+Proof.
+  induction o using object_ind'; intros t; cbn;
+    try (destruct (String.eqb _ name) eqn:E; [|discriminate]; intros Ht; inversion Ht; subst;
+         apply String.eqb_eq in E; split; [left; reflexivity|exact E]).
+  destruct (String.eqb n name) eqn:E.
+  - intros Ht; inversion Ht; subst. apply String.eqb_eq in E. split; [left; reflexivity|exact E].
+  - intros Ht. apply find_some_some in Ht. destruct Ht as (a & Ha & Hs).
+    rewrite Forall_forall in H. destruct (H a Ha t Hs) as [Hin Hn]. split; [|exact Hn].
+    right. apply in_flat_map. exists a; auto.
+Qed.
+
+Lemma search_object_in name objs t :
+  search_object name objs = Some t -> In t (flat_map flat objs) /\ object_name t = name.
+Proof.
+  unfold search_object. intros H. apply find_some_some in H. destruct H as (a & Ha & Hs).
+  apply search_obj_in in Hs. destruct Hs as [Hin Hn]. split; [|exact Hn].
+  apply in_flat_map. exists a; auto.
+Qed.
+
+(* ================================================================================================ *)
+(** * 1. The pairwise loop (C12) *)
+
+Definition conflict_pair (l : list claimed) : Prop :=
+  exists i j a b, (i < j)%nat /\ nth_error l i = Some a /\ nth_error l j = Some b /\ conflict a b = true.
+
+Lemma first_conflict_none a rest :
+  first_conflict a rest = None <-> Forall (fun b => conflict a b = false) rest.
+Proof.
+  induction rest as [|b t IH]; cbn.
+  - split; auto.
+  - destruct (conflict a b) eqn:E.
+    + split; [discriminate|]. intros H; inversion H; congruence.
+    + rewrite IH. split; intros H; [constructor; auto|inversion H; auto].
+Qed.
+
+Lemma first_conflict_some a rest e :
+  first_conflict a rest = Some e ->
+  exists j b, nth_error rest j = Some b /\ conflict a b = true /\ e = overlap_error a b /\
+              (forall j' b', (j' < j)%nat -> nth_error rest j' = Some b' -> conflict a b' = false).
+Proof.
+  induction rest as [|b t IH]; cbn; [discriminate|].
+  destruct (conflict a b) eqn:E.
+  - intros H; inversion H; subst. exists O, b. repeat split; auto. intros j' b' Hlt; lia.
+  - intros H. destruct (IH H) as (j & b0 & Hn & Hc & He & Hmin).
+    exists (S j), b0. repeat split; auto.
+    intros j' b' Hlt Hn'. destruct j' as [|j']; cbn in Hn'.
+    + inversion Hn'; subst; assumption.
+    + eapply Hmin; [|exact Hn']. lia.
+Qed.
+
+Lemma conflict_pair_cons a t :
+  conflict_pair (a :: t) <-> (exists b, In b t /\ conflict a b = true) \/ conflict_pair t.
+Proof.
+  split.
+  - intros (i & j & x & y & Hlt & Hi & Hj & Hc).
+    destruct j as [|j]; [lia|]. cbn in Hj.
+    destruct i as [|i]; cbn in Hi.
+    + inversion Hi; subst. left. exists y. split; [eapply nth_error_In; eauto|assumption].
+    + right. exists i, j, x, y. repeat split; auto. lia.
+  - intros [(b & Hb & Hc)|(i & j & x & y & Hlt & Hi & Hj & Hc)].
+    + apply In_nth_error in Hb. destruct Hb as [j Hj]. exists O, (S j), a, b. repeat split; auto. lia.
+    + exists (S i), (S j), x, y. repeat split; auto. lia.
+Qed.
+
+(* the i < j double loop rejects <-> some pair of claimed entries conflicts *)
+Lemma pairwise_complete l : pairwise_check l <> None <-> conflict_pair l.
+Proof.
+  induction l as [|a t IH]; cbn.
+  - split; [congruence|]. intros (i & j & x & y & _ & Hi & _). destruct i; discriminate.
+  - rewrite conflict_pair_cons. destruct (first_conflict a t) eqn:E.
+    + split; [|congruence]. intros _. left.
+      apply first_conflict_some in E. destruct E as (j & b & Hn & Hc & _). exists b. split; [eapply nth_error_In; eauto|auto].
+    + rewrite IH. split; [auto|]. intros [(b & Hb & Hc)|H]; [|assumption].
+      apply first_conflict_none in E. rewrite Forall_forall in E. rewrite (E b Hb) in Hc. discriminate.
+Qed.
+
+(* the reported error is built from the FIRST conflicting pair in (i, j) lexicographic order *)
+Lemma pairwise_error l e :
+  pairwise_check l = Some e ->
+  exists i j a b, (i < j)%nat /\ nth_error l i = Some a /\ nth_error l j = Some b /\ conflict a b = true /\
+    e = overlap_error a b /\
+    (forall i' j' a' b', (i' < j')%nat -> nth_error l i' = Some a' -> nth_error l j' = Some b' ->
+       (i' < i)%nat \/ (i' = i /\ (j' < j)%nat) -> conflict a' b' = false).
+Proof.
+  induction l as [|a t IH]; cbn; [discriminate|].
+  destruct (first_conflict a t) eqn:E.
+  - intros H; inversion H; subst. apply first_conflict_some in E.
+    destruct E as (j & b & Hn & Hc & He & Hmin).
+    exists O, (S j), a, b. repeat split; auto; [lia|].
+    intros i' j' a' b' Hlt Hi Hj [Hlt'|[-> Hlt']]; [lia|].
+    cbn in Hi. inversion Hi; subst. destruct j' as [|j']; [lia|]. cbn in Hj.
+    eapply Hmin; [|exact Hj]. lia.
+  - intros H. destruct (IH H) as (i & j & x & y & Hlt & Hi & Hj & Hc & He & Hmin).
+    exists (S i), (S j), x, y. repeat split; auto; [lia|].
+    intros i' j' a' b' Hlt' Hi' Hj' Hord.
+    destruct j' as [|j']; [lia|]. cbn in Hj'.
+    destruct i' as [|i']; cbn in Hi'.
+    + inversion Hi'; subst. apply first_conflict_none in E. rewrite Forall_forall in E.
+      apply E. eapply nth_error_In; eauto.
+    + eapply Hmin; [| exact Hi' | exact Hj' |]; lia.
+Qed.
+
+Lemma akind_eqb_eq a b : akind_eqb a b = true <-> a = b.
+Proof. destruct a, b; cbn; split; congruence. Qed.
+
+Lemma conflict_spec a b :
+  conflict a b = true <-> c_address a = c_address b /\ c_kind a = c_kind b /\ ~ (c_allow a = true /\ c_allow b = true).
+Proof.
+  unfold conflict. rewrite !andb_true_iff, Z.eqb_eq, akind_eqb_eq, negb_true_iff, andb_false_iff.
+  split.
+  - intros [[H1 H2] H3]. repeat split; auto. intros [Ha Hb]. destruct H3; congruence.
+  - intros (H1 & H2 & H3). repeat split; auto.
+    destruct (c_allow a); [|auto]. destruct (c_allow b); [|auto]. exfalso; apply H3; auto.
+Qed.
+
+Lemma kinds_never_conflict a b : c_kind a <> c_kind b -> conflict a b = false.
+Proof.
+  intros H. destruct (conflict a b) eqn:E; [|reflexivity].
+  apply conflict_spec in E. destruct E as (_ & Hk & _). contradiction.
+Qed.
+
+(* ================================================================================================ *)
+(** * 2. address_types_specified (C13_missing_type_rejected) *)
+
+Definition object_kind (o : object) : option akind :=
+  match o with
+  | ORegister _ => Some KRegister | OCommand _ => Some KCommand | OBuffer _ => Some KBuffer
+  | _ => None
+  end.
+
+Lemma missing_type_rejected d o k :
+  In o (preorder_objects (d_objects d)) -> object_kind o = Some k ->
+  address_type_of (d_config d) k = None ->
+  exists e, address_types_specified d = Some e /\ e_kind e = "no_address_type"%string.
+Proof.
+  intros Hin Hk Hty. unfold address_types_specified.
+  destruct (first_error _) eqn:E.
+  - apply first_error_some_in in E. destruct E as (x & _ & Hx). exists g. split; [reflexivity|].
+    unfold specified_check in Hx.
+    destruct x; try discriminate;
+      [destruct (g_register_address_type _)|destruct (g_command_address_type _)|destruct (g_buffer_address_type _)];
+      try discriminate; inversion Hx; reflexivity.
+  - exfalso. rewrite first_error_none, Forall_forall in E. specialize (E o Hin).
+    destruct o; cbn in Hk; try discriminate; inversion Hk; subst; cbn in Hty; cbn in E; rewrite Hty in E; discriminate.
+Qed.
+
+(* every instance of the spec comes from a register / command / buffer object of the tree *)
+Lemma instance_has_object dev : forall fuel objs bl path tags l i,
+  (forall x, In x objs -> In x (flat_map flat dev)) ->
+  instances_objs fuel dev objs bl path tags = Ok l -> In i l ->
+  exists o, In o (flat_map flat dev) /\ object_kind o = Some (i_kind i).
+Proof.
+  induction fuel as [|f IH]; intros objs bl path tags l i Hsub H Hin; cbn in H; [discriminate|].
+  apply ocat_map_ok in H. destruct H as (rs & HF & ->).
+  apply in_concat in Hin. destruct Hin as (r & Hr & Hir).
+  assert (Hblock : forall name off rep ch tg r0,
+            (forall x, In x ch -> In x (flat_map flat dev)) ->
+            ocat (map (fun i0 => instances_objs f dev ch (bl ++ [(name, i0)])
+                                   (path ++ [{| s_addr := off; s_rep := rep; s_idx := i0 |}])
+                                   (tg ++ opt_tag (rep_is rep) TRepBlock)) (zrange (rep_count rep))) = Ok r0 ->
+            In i r0 -> exists o, In o (flat_map flat dev) /\ object_kind o = Some (i_kind i)).
+  { intros name off rep ch tg r0 Hch Hb Hi0. apply ocat_map_ok in Hb. destruct Hb as (rs0 & HF0 & ->).
+    apply in_concat in Hi0. destruct Hi0 as (r1 & Hr1 & Hi1).
+    destruct (Forall2_in_r _ _ _ HF0 _ Hr1) as (i0 & _ & Hcall).
+    eapply IH; eauto. }
+  destruct (Forall2_in_r _ _ _ HF _ Hr) as (o & Ho & Hcall).
+  destruct o as [c n off rep ch|rg|cm|bf|c n ov].
+  - eapply Hblock; eauto. intros x Hx. eapply flat_children; eauto.
+  - inversion Hcall; subst. unfold leaf_instances in Hir. apply in_map_iff in Hir. destruct Hir as (k & <- & _).
+    exists (ORegister rg). split; [apply Hsub; assumption|reflexivity].
+  - inversion Hcall; subst. unfold leaf_instances in Hir. apply in_map_iff in Hir. destruct Hir as (k & <- & _).
+    exists (OCommand cm). split; [apply Hsub; assumption|reflexivity].
+  - inversion Hcall; subst. unfold leaf_instances in Hir. apply in_map_iff in Hir. destruct Hir as (k & <- & _).
+    exists (OBuffer bf). split; [apply Hsub; assumption|reflexivity].
+  - destruct ov as [tgt off rep|tgt acc addr allow reset rep|tgt addr allow rep].
+    + destruct (search_object tgt dev) as [t|] eqn:Es; [|discriminate].
+      destruct t; try discriminate. apply search_object_in in Es. destruct Es as [Es _].
+      eapply Hblock; eauto. intros x Hx. eapply flat_children; eauto.
+    + destruct (search_object tgt dev) as [t|] eqn:Es; [|discriminate].
+      destruct t; try discriminate. apply search_object_in in Es. destruct Es as [Es _].
+      inversion Hcall; subst. unfold leaf_instances in Hir. apply in_map_iff in Hir. destruct Hir as (k & <- & _).
+      exists (ORegister r0). split; [assumption|reflexivity].
+    + destruct (search_object tgt dev) as [t|] eqn:Es; [|discriminate].
+      destruct t; try discriminate. apply search_object_in in Es. destruct Es as [Es _].
+      inversion Hcall; subst. unfold leaf_instances in Hir. apply in_map_iff in Hir. destruct Hir as (k & <- & _).
+      exists (OCommand c0). split; [assumption|reflexivity].
+Qed.
